@@ -1,6 +1,7 @@
 package main
 
 import (
+	"errors"
 	"flag"
 	"fmt"
 	"os"
@@ -28,7 +29,11 @@ func main() {
 	}
 
 	if err := fs.Parse(os.Args[1:]); err != nil {
-		panic(err)
+		// The flag set has already printed the error and the usage.
+		if errors.Is(err, flag.ErrHelp) {
+			os.Exit(0)
+		}
+		os.Exit(1)
 	}
 
 	// Update the verbosity level.
